@@ -128,3 +128,15 @@ PROPS['C15'] = {'units': ['P', 'C'], 'spec_tags': ['tok'], 'bounded': ['cmddiff'
                   "The per-command table itself (58 commands, 125 constructor/builder paths) is macro- and fmt-heavy code that was not brought under contract in the time available: it is decided by a BOUNDED differential run against an expectation table",
     'level_note': 'bounded (cmddiff) for the command table, proof for range normalisation; never counted as proved beyond the functions under contract',
     'technique': 'contract-based deductive verification (Verus) of the range normalisation; bounded differential execution of the real command builders against an expectation table for the rest'}
+
+# C14 after the song builder was brought under contract
+PROPS['C14'].pop('category', None); PROPS['C14'].pop('technique', None)
+PROPS['C14']['trusted'] = [TRUSTED_PARSE, TRUSTED_FRAMEGET, TRUSTED_STD,
+    "oracle: the listing fold (contracts/mpd_client/song.vspec: start_step / song_step / run / songs_of), an operational transcription of the property's mechanism (entries start at file / directory / playlist; attributes collected since the last file line; duration preferred over the legacy Time; everything else is a tag filed under its protocol name)",
+    "ASSUMED (N10 same-body wrappers): HashMap<Tag, Vec<String>>::entry(tag).or_default().push(v) appends v to the values filed under the tag's protocol name (std HashMap + the repository's Hash/Eq on Tag, which go by name: proved under C20); the compiler-derived SongBuilder::default() / mem::take leave every field empty / zero / None; &Arc<str> derefs to its text",
+    "ASSUMED at the decoders' entry (requires): field names are non-empty and consist of ASCII letters, '_' and '-' (what the protocol parser accepts: vx_spec::wire::key_ok); it is not carried through Frame's contracts, and Command::response impls in definitions.rs that call these decoders are not under contract",
+    'verified WITHOUT the chrono feature (every Last-Modified text is accepted; with chrono a text that is no RFC 3339 timestamp is an error)',
+    'termination of the loops over the frame iterator is not checked (exec_allows_no_decreases_clause)']
+PROPS['C14']['level_text'] = ("Proved for all listings: Song::from_frame_multi, SongInQueue::from_frame_multi and from_frame_single compute exactly the fold of the listing oracle over the frame's fields (one song per file entry, server order, each with the url, duration, position/id/priority/range, format, "
+    "last-modified text and the tag values per tag name in order that appeared between its file line and the next entry), every rejected line is an error, nothing panics; relative to an assumed contract for the std HashMap holding the tags. The bounded differential run typeddiff checks the same end to end, including that assumption")
+PROPS['C14']['level_note'] = 'proof modulo the listed assumed contracts (HashMap entry API, derived Default, field-name alphabet); typeddiff is a bounded cross-check, not counted as proved'
